@@ -18,6 +18,12 @@ def groups(loop):
     return names
 
 
+def duplicate_tasks(loop):
+    """two live tasks with the same connection-scoped name: one of them belongs to an abandoned connection"""
+    names = [n for n in groups(loop) if n.split(":")[0] in ("SPA", "FACADE", "LOC", "SPAMAN") and "Set value task" not in n]
+    return sorted({n for n in names if names.count(n) > 1})
+
+
 def observe(st, loop, tracker, exited=False):
     names = groups(loop)
     man = st.man
@@ -177,6 +183,19 @@ def cycles_run(seed, ncycles, suspend=False):
             st = fullstack.Stack(loop, SNAPS[seed % 2], fullstack.fault_plan(rng, loop.time(), 60.0 * ncycles / 6, kinds=("healthy", "healthy", "lossy", "blackout", "rferr")), rng,
                                  suspend=(lambda ev: srng.choice([None, 0, 0.02])) if suspend else None)
             await st.man.__aenter__()
+
+            async def dup_watch():
+                prev = set()
+                while True:
+                    await asyncio.sleep(0.5)
+                    for _ in range(3):
+                        await asyncio.sleep(0)
+                    cur = set(duplicate_tasks(loop))
+                    # 'promptly': a cancelled task may still be finishing in the pass in which its successor starts; one that is
+                    # still there half a second later belongs to an abandoned connection
+                    tracker.setdefault("dups", []).extend(sorted(cur & prev))
+                    prev = cur
+            dw = loop.create_task(dup_watch(), name="HARNESS:dupwatch")
             obs, mx_eps, mx_tasks = [], 0, 0
             for c in range(ncycles):
                 await asyncio.sleep(rng.choice([0.3, 2.0, 4.2, 4.4, 5.0, 9.0, 14.0, 70.0]))
@@ -191,12 +210,15 @@ def cycles_run(seed, ncycles, suspend=False):
                     await asyncio.sleep(0)        # a cancelled task needs a pass of the loop to finish, a new connection one to start its tasks
                 o = observe(st, loop, tracker)
                 obs.append(o)
+                # also between the outside resets: the connection's own tasks start resets too (a ping answered in an error state)
+                await asyncio.sleep(rng.choice([0.7, 3.0, 11.0, 25.0]))
                 mx_eps = max(mx_eps, o[4][0])
                 mx_tasks = max(mx_tasks, len([n for n in groups(loop) if not n.startswith("Task-")]))
+            dw.cancel()
             await st.man.__aexit__(None, None, None)
             await asyncio.sleep(0.3)
             obs.append(observe(st, loop, tracker, exited=True))
-            return obs, mx_eps, mx_tasks, len(loop.endpoints)
+            return obs, mx_eps, mx_tasks, len(loop.endpoints), sorted(set(tracker.get("dups", [])))
         finally:
             remove()
     return vloop.run(main)
@@ -255,13 +277,16 @@ def run(ctx):
                 if len(meta) < 6 and r["state_at"] in ("CONNECTING", "LOCATING_SPAS", "ERROR_RF_FAULT"):
                     meta.append(dict(replay, ledger_after=r["obs"][-1:] and str(r["obs"][-1]), healed_after_s=r.get("healed")))
     for seed in range(8 if ctx.thorough else 4):
-        obs, mx_eps, mx_tasks, total_eps = cycles_run(ctx.seed * 10 + seed, 60 if ctx.thorough else 25, suspend=(seed % 2 == 1))
+        obs, mx_eps, mx_tasks, total_eps, dups = cycles_run(ctx.seed * 10 + seed, 60 if ctx.thorough else 25, suspend=(seed % 2 == 1))
         obs_all += obs
         ctx.case(("cycles", seed), nontrivial=True)
         ctx.count("reconnect_cycles", len(obs) - 1)
         ctx.count("endpoints_opened_in_cycles", total_eps)
         ctx.dist["max_open_endpoints"] = max(ctx.dist.get("max_open_endpoints", 0), mx_eps)
         ctx.dist["max_live_tasks"] = max(ctx.dist.get("max_live_tasks", 0), mx_tasks)
+        if dups:
+            ctx.fail("ledger:task_of_abandoned_connection:%s" % dups[0], "two live tasks named %s at once during the reconnect cycles: one belongs to a connection that has been abandoned" % dups[:3],
+                     {"seed": seed, "duplicate_task_names": dups})
         if mx_eps > 2:
             ctx.fail("ledger:endpoints_grow", "%d endpoints open at once during %d reconnect cycles" % (mx_eps, len(obs) - 1), {"seed": seed})
         if mx_tasks > 16:
